@@ -38,7 +38,9 @@ enum {
 	FM_SHAREDCOLL = 2048, // with FM_COLL: a second node references the same collision object
 	FM_SHADERCTRL = 4096, // chain of two float controllers on the shape's lighting shader (SK/SSE/FO4)
 	FM_BONETREE = 8192,   // with FM_SKIN: Bone1 is a child of Bone0 instead of the root
-	FM_LEGACYSHAPE = 16384 // SSE/FO4 file that still contains NiTriShape geometry (built as Skyrim LE, then re-versioned)
+	FM_LEGACYSHAPE = 16384, // SSE/FO4 file that still contains NiTriShape geometry (built as Skyrim LE, then re-versioned)
+	FM_EXPORTINFO = 32768,  // 300-character export info in the header
+	FM_TEXPATH = 65536      // a texture path that needs cleaning in texture slot 0
 };
 
 struct FmModel {
@@ -196,6 +198,14 @@ static inline FmModel fm_build(NifFile& nif, int ver, int feat) {
 			order[looseId] = 0;
 			hdr.SetBlockOrder(order);
 		}
+	}
+	if (feat & FM_EXPORTINFO)
+		hdr.SetExportInfo(std::string(300, 'e'));
+	if (feat & FM_TEXPATH) {
+		if (auto sh = nif.GetShader(m.shape))
+			if (auto ts = hdr.GetBlock<BSShaderTextureSet>(sh->TextureSetRef()))
+				if (!ts->textures.empty())
+					ts->textures[0].get() = "/effects//fx.dds ";
 	}
 	if (legacy)
 		hdr.SetVersion(fm_version(ver));
